@@ -44,9 +44,13 @@ def _cstr8(s):
 _layout = {"sample_type": SAMPLE_TYPE}
 
 
-def set_layout(cpu=True, period=True):
-    """choose which optional fields the main event records: PERF_SAMPLE_CPU and PERF_SAMPLE_PERIOD (both on by default)"""
-    st = S_IP | S_TID | S_TIME | S_CALLCHAIN
+def set_layout(cpu=True, period=True, ip=True, callchain=True):
+    """choose which optional fields the main event records: PERF_SAMPLE_CPU, PERF_SAMPLE_PERIOD, PERF_SAMPLE_IP, PERF_SAMPLE_CALLCHAIN (all on by default)"""
+    st = S_TID | S_TIME
+    if ip:
+        st |= S_IP
+    if callchain:
+        st |= S_CALLCHAIN
     if cpu:
         st |= S_CPU
     if period:
@@ -96,12 +100,13 @@ def sample(pid, tid, time, ip, callchain, cpu=0, period=1, kernel=False):
     if callchain is None:
         callchain = [PERF_CONTEXT_USER, ip]
     st = _layout["sample_type"]
-    body = struct.pack("<QIIQ", ip, pid, tid, time)
+    body = (struct.pack("<Q", ip) if st & S_IP else b"") + struct.pack("<IIQ", pid, tid, time)
     if st & S_CPU:
         body += struct.pack("<II", cpu, 0)
     if st & S_PERIOD:
         body += struct.pack("<Q", period)
-    body += struct.pack("<Q", len(callchain)) + b"".join(struct.pack("<Q", x & ((1 << 64) - 1)) for x in callchain)
+    if st & S_CALLCHAIN:
+        body += struct.pack("<Q", len(callchain)) + b"".join(struct.pack("<Q", x & ((1 << 64) - 1)) for x in callchain)
     return _rec(PERF_RECORD_SAMPLE, MISC_KERNEL if kernel else MISC_USER, body)
 
 
